@@ -5,7 +5,7 @@ from hypothesis import strategies as st
 
 from pv import catalog, catgen, codec, gen
 from pv.core import Sub, Fail, exc_fail
-from pv.probes import Counting
+from pv.probes import Counting, Boom
 from pv.ref import base as R
 
 ID = "C11"
@@ -53,9 +53,11 @@ def _variant_case(draw, tier, names):
     e = catalog.get(name)
     kinds = ["buffersize", "buffersize", "config", "tempdir", "nocache"] + (["presorted", "presorted"] if e.has("presorted") else [])
     variant = draw(st.sampled_from(kinds))
-    # presorted inputs are sorted by the harness on the raw key cells: keep them rectangular, so that
-    # squaring up (padding with `missing`) cannot change a key after the fact
-    c = draw(catgen.cat_case([name], max_rows=6 if tier == "quick" else 12, allow_ragged=variant != "presorted"))
+    # presorted inputs are sorted by the harness on the raw key cells: rows may be ragged only beyond the key fields
+    # (k, j are the first two), so that squaring up (padding with `missing`) cannot change a key after the fact
+    keys_in_front = e.presort is not None and set([e.presort] if isinstance(e.presort, str) else e.presort) <= {"k", "j"}
+    c = draw(catgen.cat_case([name], max_rows=6 if tier == "quick" else 12, allow_ragged=variant != "presorted" or keys_in_front,
+                             ragged_min=2 if variant == "presorted" else 0))
     n = max(len(t) - 1 for t in c["sources"])
     c["variant"] = variant
     c["buffersize"] = draw(st.sampled_from(sorted({1, 2, max(1, n - 1), max(1, n), n + 1, 2 * n + 1})))
@@ -159,14 +161,21 @@ def _history_case(draw, tier, names):
     c["buffersize"] = draw(st.sampled_from([None, 2, 1, 3]))
     nsteps = draw(gen.sizes(3, 9))
     steps = []
+    # opening: a third of the histories start with a pass that hits a transient source fault (the first thing a cache
+    # could wrongly remember), before anything has been completed
+    if draw(st.integers(0, 2)) == 0:
+        steps.append(["failpass", draw(st.integers(0, e.n - 1)), draw(st.integers(0, 3))])
     row = catgen.cat_table(max_rows=1, min_rows=1, cells=e.cells).map(lambda t: t[1])
     for _ in range(nsteps):
-        kind = draw(st.sampled_from(["full", "full", "edit", "edit", "partial"]))
+        kind = draw(st.sampled_from(["full", "full", "edit", "edit", "partial", "failpass"]))
         if kind == "edit":
             steps.append(["edit", draw(st.integers(0, e.n - 1)), draw(st.sampled_from(["append", "delete", "replace"])),
                           draw(st.integers(0, 5)), draw(row)])
         elif kind == "partial":
             steps.append(["partial", draw(st.integers(1, 3))])
+        elif kind == "failpass":
+            # a full pass during which source `si` raises at data row `at` (a transient fault: later passes work again)
+            steps.append(["failpass", draw(st.integers(0, e.n - 1)), draw(st.integers(0, 4))])
         else:
             steps.append(["full"])
     steps.append(["full"])
@@ -184,10 +193,7 @@ def check_history(case, ctx):
     if bs is not None and not hashop:
         kw["buffersize"] = bs
         kw["tempdir"] = ctx.tmpdir()
-    if hashop and cache:
-        # a cached lookup replays the build side only; the statement's cache clause is about sort-backed views
-        ctx.label("hash-cache-true-unchecked")
-        return None
+    hash_cached = hashop and cache   # a cached lookup replays the build side only: checked until the first completed pass
     ctx.label("entry:" + e.name, "cache" if cache else "nocache", "bs:%s" % bs)
 
     def fresh():
@@ -202,6 +208,7 @@ def check_history(case, ctx):
     except Exception as ex:
         return exc_fail(e.name + "/construct", ex)
     P = None
+    started = False       # some pass (full, partial or failed) has been started on the view
     edited = False
     tainted = False       # an abandoned pass happened before the first completed one
     fulls_after_edit = 0
@@ -221,6 +228,16 @@ def check_history(case, ctx):
             continue
         for s in srcs:
             s.reset()
+        armed = None
+        if step[0] == "failpass":
+            _, si, at = step
+            if at >= len(rows[si]) - 1:
+                continue   # nothing to fail at
+            armed = si
+            srcs[si].fail_at = at
+            ctx.label("failpass")
+        started_before = started
+        started = True
         try:
             exp_now = fresh()
         except Exception:
@@ -237,28 +254,40 @@ def check_history(case, ctx):
                 del it
             else:
                 got = [tuple(r) for r in it]
+        except Boom:
+            # the transient fault surfaced: the pass neither completed nor changed anything; later passes work again
+            srcs[armed].fail_at = None
+            continue
         except Exception as ex:
             return exc_fail("%s/%s" % (e.name, "cache" if cache else "nocache"), ex)
+        finally:
+            if armed is not None:
+                srcs[armed].fail_at = None
+        # (a pass with an armed fault that completes did not need the failing row - an operator may stop early or be
+        #  served from its cache - and is judged like any other full pass)
         pulls = [s.data_pulls for s in srcs]
         j = len(got)
+        if hash_cached and (P is not None or edited):
+            ctx.label("hash-cache-true-unchecked")
+            return None
         if not cache:
-            if got != exp_now[:j] or (step[0] == "full" and got != exp_now):
+            if got != exp_now[:j] or (step[0] != "partial" and got != exp_now):
                 return Fail("%s/nocache-stale" % e.name, "cache=False %s pass gave %r, sources now give %r (history %r)" % (step[0], got, exp_now, case["steps"]))
         else:
             if P is not None:
-                if got != P[:j] or (step[0] == "full" and got != P):
+                if got != P[:j] or (step[0] != "partial" and got != P):
                     return Fail("%s/cache-replay-differs" % e.name, "cache=True %s pass gave %r, completed pass gave %r" % (step[0], got, P))
                 if any(pulls):
                     return Fail("%s/cache-rereads-sources" % e.name, "cache=True pass after a completed pass pulled %r data rows" % (pulls,))
             else:
                 if not edited:
-                    if got != exp_now[:j] or (step[0] == "full" and got != exp_now):
+                    if got != exp_now[:j] or (step[0] != "partial" and got != exp_now):
                         return Fail("%s/first-pass-differs" % e.name, "first %s pass gave %r, default call gives %r" % (step[0], got, exp_now))
                 if step[0] == "partial":
                     tainted = True
                 else:
                     P = got
-        if step[0] == "full" and seen_edit:
+        if step[0] in ("full", "failpass") and seen_edit:
             fulls_after_edit += 1
     ctx.nontrivial(fulls_after_edit >= 1 and sum(1 for s in case["steps"] if s[0] == "full") >= 2)
     return None
